@@ -24,7 +24,7 @@ var cmpOps = []string{"=", "!=", "<", "<=", ">", ">="}
 // genLeaf: a well-typed comparison on a field of typ; related picks the filter's value
 // close to the resource's value (equal, adjacent, shared prefix) half of the time.
 func genLeaf(r *Rng, typ jsonapi.Type, vals map[string]any, o *Out) *jsonapi.Filter {
-	fields := typ.Fields()
+	fields := fieldsIndep(typ)
 	if len(fields) == 0 {
 		return &jsonapi.Filter{Op: "and", Val: []*jsonapi.Filter{}}
 	}
@@ -55,7 +55,7 @@ func genLeaf(r *Rng, typ jsonapi.Type, vals map[string]any, o *Out) *jsonapi.Fil
 			o.stat("op.in")
 			return &jsonapi.Filter{Field: name, Op: "in", Val: ids}
 		}
-		o.stat("kind." + jsonapi.GetAttrTypeString(a.Type, a.Nullable))
+		o.stat("kind." + kindNameIndep(a.Type, a.Nullable))
 		o.stat("op." + op)
 		return &jsonapi.Filter{Field: name, Op: op, Val: v}
 	}
@@ -252,7 +252,7 @@ func suiteFilter(r *Rng, n int, thorough bool, o *Out) {
 			// a soft resource that just came to this type from another one
 			for k := range vals {
 				if a, ok := typ.Attrs[k]; ok {
-					vals[k] = jsonapi.GetZeroValue(a.Type, a.Nullable)
+					vals[k] = zeroIndep(a.Type, a.Nullable)
 				} else if typ.Rels[k].ToOne {
 					vals[k] = ""
 				} else {
